@@ -61,8 +61,9 @@ CHECKS.update({
               "BoundedWaiting and the liveness property Terminates (weak fairness) for every placement of up to MaxFaults faults over every read of every "
               "connection of a family of server archetypes. Conformance: byte-level refinements of those faults (truncation, length fields, types, random bytes, "
               "debug/pre-banner/segmentation) are injected at every message of three archetype transcripts, the real CLI is run, the direct clauses are checked "
-              "and the recorded network trace is validated by TLC against TraceAudit.tla, which infers the failing read and evaluates every invariant at every step."),
-        design='8 C09', note=AUDIT_NOTE, technique='TLC model checking (safety + liveness) of SshAudit.tla; fault-injected runs validated as traces against TraceAudit.tla'),
+              "and the recorded network trace is validated by TLC against TraceAudit.tla, which infers the failing read and evaluates every invariant at every step. "
+              "The same machine covers SSH-1 peers (fallback and -1), peers refusing both versions and client audits (-c), each with its own fault family."),
+        design='8 C09, 14.2', note=AUDIT_NOTE, technique='TLC model checking (safety + liveness) of SshAudit.tla; fault-injected runs validated as traces against TraceAudit.tla'),
     'C11': dict(category='model_checking',
         text=("Thresholds, monotonicity and RSA-family fan-out are operators/invariants of SshRating.tla (SizeMonotone, Thresholds) and SshAudit.tla (RsaFanOut, one "
               "probe per family) checked by TLC; the expected size suffix, notes and JSON fields of every measured case come from TLC, the presented blobs from an "
@@ -76,8 +77,10 @@ CHECKS.update({
     'C19': dict(category='model_checking',
         text=("FootprintBounded, KexReqDiscipline, AllClosedAtExit, ProbesOnlyAfterHandshake are invariants of SshAudit.tla model-checked over the fault family and the "
               "rate loop (every reply pattern), and evaluated on every state of the recorded network traces of real runs (C09/C11/C12 families, rate-test peers, "
-              "policy and make-policy audits, with and without --skip-rate-test) through TraceAudit.tla."),
-        design='8 C19', note=AUDIT_NOTE, technique='TLC model checking + trace validation of connection logs against TraceAudit.tla'),
+              "policy and make-policy audits, SSH-1 peers, peers refusing both versions, repeated host-key names, multi-homed names, with and without --skip-rate-test) "
+              "through TraceAudit.tla. The last clause (attack modes only when requested; --skip-rate-test honoured) is decided on the command line itself: SshCli.tla "
+              "enumerates every option set of bounded size with its expected configuration and each is replayed into process_commandline()."),
+        design='8 C19, 14.2', note=AUDIT_NOTE, technique='TLC model checking + trace validation of connection logs against TraceAudit.tla'),
 })
 
 MULTI_NOTE = ("TLC; the fake network; the guarded wrappers around target_worker_thread / thread_exit (harness/observe.py) that log begin/end events with the "
@@ -118,8 +121,11 @@ CHECKS.update({
               "arithmetic; TLC checks RoundTrip, Minimal, ReEncode, LengthPrefix, Mp1BitCount on every magnitude up to MaxLen bytes over {00,01,7f,80,ff} with both signs and the "
               "framing law for every payload length 0..4096, and encodes harness-chosen values (dense window, +-2^k+-1 up to 2^8192, word patterns, random). All pairs are "
               "replayed into WriteBuf/ReadBuf; every payload length is sent through send_packet and read back by the tool's reader and an independent decoder; KEXINIT and "
-              "SSH-1 messages are round-tripped against the independent codec. The functions are pure: the assurance is the replay of TLC's enumeration."),
-        design='8 C10, 9', note='TLC; the independent codec harness/wire.py; SSH-1 CRC-32 values come from zlib (outside TLA+)', technique='TLC-checked reference codec; enumerated value/bytes pairs replayed into the buffer classes and packet framing'),
+              "SSH-1 messages are round-tripped against the independent codec. The functions are pure: the assurance is the replay of TLC's enumeration. "
+              "The reader over a TCP stream is a state machine of its own (SshStream.tla: Recv/Take per ensure_read, SSH-2 and SSH-1 framing): TLC checks Aligned, "
+              "NoOverread, AllReturned and Terminates for every packet sequence and every segmentation with up to two cuts, and each case is replayed into read_packet. "
+              "The framing arithmetic for every payload length (not only 0..4096) is a TLAPS theorem (SshFrameProof.tla) re-checked by tlapm on every run."),
+        design='8 C10, 9, 14.2', note='TLC; the independent codec harness/wire.py; SSH-1 CRC-32 values come from zlib (outside TLA+)', technique='TLC-checked reference codec; enumerated value/bytes pairs replayed into the buffer classes and packet framing'),
     'C16': dict(category='model_checking',
         text=("SshBanner.tla models the peer's identification exchange (other lines, banner built from parts, CR LF / LF) and the tool's reader (split, skip blank, header, "
               "banner, decompose, sanitise, render); TLC checks BannerFound, HeaderIsOthers, PartsAreParts, RoundTrip, KnownProducts on the grammar's universe and emits wire bytes "
